@@ -67,7 +67,7 @@ def run(sd: Path, pids, tier):
             if keep is not None:
                 ev.write_text(keep)      # evidence must describe runs on /repo itself
             lines = [l for l in r.stdout.splitlines() if l.startswith(('VIOLATION', 'KNOWN-FINDING', '  #'))]
-            out[pid] = {'exit': r.returncode, 'wall_s': round(time.time() - t, 1), 'lines': lines[:12]}
+            out[pid] = {'exit': r.returncode, 'wall_s': round(time.time() - t, 1), 'lines': lines[:80]}
     finally:
         drop(d)
     return out
